@@ -29,7 +29,7 @@ namespace vs { namespace srv {
 using namespace muscle;
 using match::Filt;
 
-enum {MARKER_WHAT = 777777, ROUTED_WHAT = 0x726f7574 /* 'rout' */};
+enum {MARKER_WHAT = 777777, ROUTED_WHAT = 0x726f7574 /* 'rout' */, BARE_BASE = 0x62000000, BARE_SPAN = 64*100000};   // a BARE routed Message has no field at all: its what-code is BARE_BASE + sender conn*100000 + seq
 static const char * kOpIdField = "vsim_opid";
 
 struct Sub {Filt filt; bool quiet = false;};
@@ -457,7 +457,15 @@ public:
             c->routedGot.push_back(rx); st.inc("routed_deliveries");
          }
          break;
-         default: break;
+         default:
+            if ((m()->what >= (uint32) BARE_BASE)&&(m()->what < (uint32) BARE_BASE + (uint32) BARE_SPAN))
+            {
+               const uint32 v = m()->what - (uint32) BARE_BASE;
+               Conn::RoutedRx rx; rx.seq = (int)(v % 100000); rx.fromConn = (int)(v / 100000); rx.sessionField = "<bare>"; rx.fromSid = 0;
+               c->routedGot.push_back(rx); st.inc("routed_deliveries"); st.inc("routed_deliveries_bare");
+               if (m()->GetNumNames() != 0) st.inc("p.bare_routed_message_arrived_with_fields");
+            }
+         break;
       }
    }
    // does some subscription in (subs) cover (path)?  With (payload) given and (useFilter), the subscription's filter must accept it too.
@@ -597,8 +605,10 @@ public:
    // C05: expectation fixed at the instant the server processes the routed Message
    void ExpectRouted(Conn * c, const MessageRef & msg)
    {
-      if (msg()->what != (uint32) ROUTED_WHAT) return;
-      RoutedExpect ex; ex.fromConn = c->idx; ex.fromSid = c->sid; ex.seq = msg()->GetInt32("seq", -1);
+      const bool bare = (msg()->what >= (uint32) BARE_BASE)&&(msg()->what < (uint32) BARE_BASE + (uint32) BARE_SPAN);
+      if ((msg()->what != (uint32) ROUTED_WHAT)&&(!bare)) return;
+      RoutedExpect ex; ex.fromConn = c->idx; ex.fromSid = c->sid; ex.seq = bare ? (int)((msg()->what - (uint32) BARE_BASE) % 100000) : msg()->GetInt32("seq", -1);
+      if ((bare)&&((int)((msg()->what - (uint32) BARE_BASE) / 100000) != c->idx)) return;   // (a hand-edited plan)
       std::vector<std::string> keys; const String * s;
       for (uint32 i=0; msg()->FindString(PR_NAME_KEYS, i, &s).IsOK(); i++) keys.push_back(s->Cstr());
       const bool hasKeys = msg()->HasName(PR_NAME_KEYS, B_STRING_TYPE);
@@ -798,6 +808,7 @@ public:
             if ((it != lastSeq.end())&&(rx.seq < it->second)) Fail("routed_out_of_order", "session " + U(c->sid) + " received seq " + I(rx.seq) + " after seq " + I(it->second) + " from conn " + I(rx.fromConn));
             lastSeq[rx.fromConn] = rx.seq;
             // the sender was whichever incarnation of that connection slot processed this seq
+            if (rx.sessionField == "<bare>") continue;   // (a Message without a sender-identity field gets none)
             bool sidOk = false; for (auto & ex : routed) if ((ex.fromConn == rx.fromConn)&&(ex.seq == rx.seq)&&(rx.sessionField == U(ex.fromSid))) sidOk = true;
             if (!sidOk) Fail("routed_wrong_sender_identity", "session " + U(c->sid) + " received routed seq " + I(rx.seq) + " from conn " + I(rx.fromConn) + " whose sender-identity field says '" + rx.sessionField + "'");
          }
